@@ -103,6 +103,33 @@ static bool check_summary(const struct cmb_datasummary *s, const double *x, size
     return true;
 }
 
+/* summaries of very many samples: built by merging a small summary with itself k times (count 2^k times the base), two of them merged.
+ * Exact reference: replicating data leaves mean and central moments per sample unchanged; pooling two groups is textbook. */
+static void c17_huge_counts(vr_rng *r)
+{
+    double xa[6], xb[6]; size_t na = 2 + vr_below(r, 5), nb = 2 + vr_below(r, 5);
+    for (size_t k = 0; k < na; k++) xa[k] = (double)vr_below(r, 9) - 2.0;
+    for (size_t k = 0; k < nb; k++) xb[k] = 10.0 + (double)vr_below(r, 9) * 0.5;
+    xa[0] = -2.0; xa[1] = 6.0; xb[0] = 10.0; xb[1] = 14.0;      /* no constant groups */
+    int ka = 20 + (int)vr_below(r, 15), kb = 20 + (int)vr_below(r, 15);          /* counts 2^20 .. 2^34 times the base: products up to 2^70 */
+    struct cmb_datasummary *a = cmb_datasummary_create(), *b = cmb_datasummary_create(), *t = cmb_datasummary_create();
+    for (size_t k = 0; k < na; k++) cmb_datasummary_add(a, xa[k]);
+    for (size_t k = 0; k < nb; k++) cmb_datasummary_add(b, xb[k]);
+    for (int k = 0; k < ka; k++) cmb_datasummary_merge(a, a, a);
+    for (int k = 0; k < kb; k++) cmb_datasummary_merge(b, b, b);
+    q_t Na = (q_t)na * powq(2, ka), Nb = (q_t)nb * powq(2, kb), N = Na + Nb;
+    q_t ma = 0, mb = 0; for (size_t k = 0; k < na; k++) ma += xa[k]; ma /= (q_t)na; for (size_t k = 0; k < nb; k++) mb += xb[k]; mb /= (q_t)nb;
+    q_t M2a = 0, M2b = 0; for (size_t k = 0; k < na; k++) M2a += (xa[k] - ma) * (xa[k] - ma); for (size_t k = 0; k < nb; k++) M2b += (xb[k] - mb) * (xb[k] - mb);
+    M2a *= powq(2, ka); M2b *= powq(2, kb);
+    q_t mean = (Na * ma + Nb * mb) / N, d = mb - ma, M2 = M2a + M2b + d * d * Na * Nb / N, var = M2 / (N - 1);
+    uint64_t cnt = cmb_datasummary_merge(t, a, b);
+    if ((q_t)cnt != N || (q_t)cmb_datasummary_count(t) != N) vr_violation("C17/merge-count", "merge of 2^%d x %zu and 2^%d x %zu samples returned count %" PRIu64, ka, na, kb, nb, cnt);
+    else if (fabs((double)((q_t)cmb_datasummary_mean(t) - mean)) > 1e-9 * (1 + fabs((double)mean))) vr_violation("C17/mean", "merge of 2^%d x %zu and 2^%d x %zu samples: mean %.12g, exact %.12g", ka, na, kb, nb, cmb_datasummary_mean(t), (double)mean);
+    else if (fabs((double)((q_t)cmb_datasummary_variance(t) - var)) > 1e-9 * (double)var) vr_violation("C17/variance", "merge of 2^%d x %zu and 2^%d x %zu samples (product of the counts 2^%.1f): variance %.12g, exact %.12g", ka, na, kb, nb, (double)(log2q(Na) + log2q(Nb)), cmb_datasummary_variance(t), (double)var);
+    VR_CNT("merges_of_huge_summaries"); if (log2q(Na) + log2q(Nb) >= 64) VR_CNT("merges_with_count_product_beyond_2_64");
+    cmb_datasummary_destroy(a); cmb_datasummary_destroy(b); cmb_datasummary_destroy(t);
+}
+
 static void c17_unweighted(vr_rng *r)
 {
     int cls = (int)vr_below(r, G_N); size_t n = pick_len(r);
@@ -172,6 +199,23 @@ out:
 /* weighted ---------------------------------------------------------------- */
 static bool rel_close(double a, double b, double tol, double floor_) { double d = fabs(a - b), m = fmax(fmax(fabs(a), fabs(b)), floor_); return d <= tol * m || (a != a && b != b); }
 
+/* a summary collected by a simulated process (its own floating-point environment): integer weights in a unit of 2^-1070, i.e. subnormal
+ * but exact, must give the count and the mean of the same data with the weights 1..4 */
+static struct { size_t n; const double *x, *w; struct cmb_wtdsummary *s; } inproc;
+static void *inproc_body(struct cmb_process *me, void *ctx) { (void)me; (void)ctx; for (size_t k = 0; k < inproc.n; k++) cmb_wtdsummary_add(inproc.s, inproc.x[k], inproc.w[k] * 0x1p-1070); return NULL; }
+static void c17_in_process(const double *x, const double *w, size_t n, size_t np, double mean_ref, double range)
+{
+    inproc.n = n; inproc.x = x; inproc.w = w; inproc.s = cmb_wtdsummary_create();
+    cmb_event_queue_initialize(0.0);
+    struct cmb_process *p = cmb_process_create(); cmb_process_initialize(p, "collector", inproc_body, NULL, 0); cmb_process_start(p);
+    while (cmb_event_execute_next()) { }
+    cmb_process_terminate(p); cmb_process_destroy(p); cmb_event_queue_terminate();
+    if (cmb_wtdsummary_count(inproc.s) != np) vr_violation("C17/wtd-count", "collected inside a process with weights in a unit of 2^-1070: count %" PRIu64 ", %zu samples have a positive weight", cmb_wtdsummary_count(inproc.s), np);
+    else if (np > 0 && fabs(cmb_wtdsummary_mean(inproc.s) - mean_ref) > 1e-9 * (range + fabs(mean_ref) + 1e-300)) vr_violation("C17/wtd-scale/mean", "collected inside a process with weights in a unit of 2^-1070: mean %.12g, with the unit 1 it is %.12g", cmb_wtdsummary_mean(inproc.s), mean_ref);
+    VR_CNT("weighted_summaries_collected_inside_a_process");
+    cmb_wtdsummary_destroy(inproc.s);
+}
+
 static void c17_weighted(vr_rng *r)
 {
     int cls = (int)vr_below(r, G_N); size_t n = pick_len(r); if (n > 20000) n = 20000;
@@ -236,6 +280,7 @@ static void c17_weighted(vr_rng *r)
             cmb_wtdsummary_destroy(t); VR_CNT("weight_scale_relations");
         }
     }
+    if (vr_nviol == 0 && wcls == 3 && n <= 2000 && vr_chance(r, 1, 2)) c17_in_process(x, w, n, np, cmb_wtdsummary_mean(s), mx > mn ? mx - mn : 0.0);
     /* weighted merge == concatenation (compared against the directly built summary) */
     if (vr_nviol == 0) {
         size_t cut = vr_below(r, n + 1); if (vr_chance(r, 1, 4)) cut = vr_chance(r, 1, 2) ? 0 : n;
@@ -577,8 +622,39 @@ static void c18_acf(vr_rng *r)
         }
         free(xi);
     }
+    /* the time-series entry point is the same function: every admissible number of lags up to count - 1, bit for bit */
+    if (vr_nviol == 0) {
+        struct cmb_timeseries *ts = cmb_timeseries_create(); for (size_t k = 0; k < n; k++) cmb_timeseries_add(ts, x[k], (double)k);
+        unsigned l2 = vr_chance(r, 1, 2) ? (unsigned)(n - 1) : lags;           /* the largest admissible one in half of the cases */
+        double *a1 = malloc((l2 + 2) * sizeof *a1), *a2 = malloc((l2 + 2) * sizeof *a2);
+        for (unsigned l = 0; l <= l2 + 1; l++) a1[l] = a2[l] = 7e300;
+        cmb_dataset_ACF(d, l2, a1); cmb_timeseries_ACF(ts, (uint16_t)l2, a2);
+        for (unsigned l = 0; l <= l2; l++) if (memcmp(&a1[l], &a2[l], 8) != 0 || a1[l] == 7e300) {      /* (this estimator may leave [-1, 1] for short series) */ vr_violation("C18/acf-value", "lag %u of %u (n=%zu): dataset entry point gives %.12g, time-series entry point %.12g", l, l2, n, a1[l], a2[l]); break; }
+        if (a1[l2 + 1] != 7e300 || a2[l2 + 1] != 7e300) vr_violation("C18/acf-overrun", "ACF with %u lags wrote beyond element %u", l2, l2);
+        if (l2 == n - 1) VR_CNT("acf_with_the_largest_admissible_lag"); VR_CNT("acf_through_the_time_series_entry_point");
+        free(a1); free(a2); cmb_timeseries_destroy(ts);
+    }
     vr_mark_nontrivial();
     free(acf); free(pacf); cmb_dataset_destroy(d); free(x);
+}
+
+/* more lags than fit 16 bits: 66000 samples, 65600 lags; a sample of the coefficients against the definition, all of them written */
+static void c18_acf_many_lags(vr_rng *r)
+{
+    size_t n = 66000; unsigned lags = 65537 + (unsigned)vr_below(r, 400);
+    double *x = malloc(n * sizeof *x); double prev = 0;
+    for (size_t k = 0; k < n; k++) { double e = vr_unit(r) - 0.5; x[k] = prev = 0.9 * prev + e; }
+    struct cmb_dataset *d = cmb_dataset_create(); for (size_t k = 0; k < n; k++) cmb_dataset_add(d, x[k]);
+    double *acf = malloc((lags + 2) * sizeof *acf); for (unsigned l = 0; l <= lags + 1; l++) acf[l] = 7e300;
+    cmb_dataset_ACF(d, lags, acf);
+    unsigned unwritten = 0; for (unsigned l = 0; l <= lags; l++) if (acf[l] == 7e300) unwritten++;
+    if (unwritten) vr_violation("C18/acf-value", "ACF with %u lags on %zu samples: %u coefficients were never calculated", lags, n, unwritten);
+    else if (acf[lags + 1] != 7e300) vr_violation("C18/acf-overrun", "ACF with %u lags wrote beyond element %u", lags, lags);
+    else { q_t m = 0; for (size_t k = 0; k < n; k++) m += x[k]; m /= (q_t)n; q_t v = 0; for (size_t k = 0; k < n; k++) v += ((q_t)x[k] - m) * ((q_t)x[k] - m); v /= (q_t)(n - 1);
+        for (int q = 0; q < 12 && vr_nviol == 0; q++) { unsigned l = q < 2 ? lags - (unsigned)q : 1 + (unsigned)vr_below(r, lags); q_t c = 0; for (size_t k = 0; k + l < n; k++) c += ((q_t)x[k] - m) * ((q_t)x[k + l] - m); c /= (q_t)(n - l); double want = (double)(c / v);
+            if (fabs(acf[l] - want) > 1e-7 * (1 + fabs(want))) vr_violation("C18/acf-value", "ACF[%u] of %u = %.12g, definition gives %.12g (n=%zu)", l, lags, acf[l], want, n); } }
+    VR_CNT("acf_with_more_than_65535_lags"); vr_mark_nontrivial(); vr_fp_mix(lags);
+    free(acf); cmb_dataset_destroy(d); free(x);
 }
 
 void vr_case(uint64_t seed, uint64_t idx, int profile)
@@ -589,10 +665,11 @@ void vr_case(uint64_t seed, uint64_t idx, int profile)
     int reps = profile <= 1 ? 4 : profile == 2 ? 2 : 4;
     for (int k = 0; k < reps && vr_nviol == 0; k++) {
         switch (profile) {
-        case 0: c17_unweighted(&r); break;
+        case 0: c17_unweighted(&r); if (vr_nviol == 0) c17_huge_counts(&r); break;
         case 1: c17_weighted(&r); break;
         case 2: c18_order(&r); break;
         case 3: c18_hist(&r); break;
+        case 5: if (k == 0) c18_acf_many_lags(&r); break;
         default: c18_acf(&r); break;
         }
         VR_CNT("inputs");
